@@ -5,5 +5,5 @@ THEOREMS = []
 TRUSTED = []
 ASSUMPTIONS = []
 LEVEL_TEXT = 'Lean theorems about the word-level inverse/division primitives (all 64-bit words), the single-limb division kernels (all lengths) and the rounding/sign/adjust logic of every mpz division wrapper (all signs, d=0 cases); models run against the rebuilt library with dividends constructed backwards from (q,d,r) to hit the rare correction branches.'
-LEVEL_NOTE = 'Multi-limb schoolbook/divide-and-conquer/Newton division are value-level or differential only; assembly divrem_2/divrem_euclidean kernels by correspondence.'
+LEVEL_NOTE = 'Schoolbook mpn_sb_div_qr is proved limb for limb (part c02_sb); mpn_sb_divappr_q/mpn_sb_div_q and divide-and-conquer/Newton division are value-level or differential only; assembly divrem_2/divrem_euclidean kernels by correspondence.'
 PLACEHOLDER = True
